@@ -831,3 +831,27 @@ def lookalike(seed, index):
     return "\n".join(L) + "\n"
 
 N_LOOKALIKE = len(LOOKALIKE_FIELDS) * len(LOOKALIKE_READS) * 3 * 2
+
+
+REP_ALPHABET = ["dup", "pop", "int 1", "load 0", "load 1"]
+
+
+def repetitive(seed, index):
+    """programs over a FIVE-instruction alphabet with long runs (`dup dup dup`, `load 0 load 1 load 0 load 1 load 0`), cut by labels,
+    branches and a subroutine: patterns over the same alphabet occur many times, OVERLAPPING each other, across and inside blocks"""
+    r = random.Random(f"repetitive/{seed}/{index}")
+    def run():
+        k = r.randrange(3)
+        if k == 0: return [r.choice(REP_ALPHABET)] * r.randrange(2, 6)
+        if k == 1:
+            a, b = r.sample(REP_ALPHABET, 2); return ([a, b] * r.randrange(2, 4)) + ([a] if r.random() < 0.6 else [])
+        return [r.choice(REP_ALPHABET) for _ in range(r.randrange(2, 7))]
+    L = ["#pragma version 8"]
+    labels = [f"l{j}" for j in range(r.randrange(1, 4))]
+    for lab in labels:
+        L += run()
+        if r.random() < 0.6: L += ["load 2", f"{r.choice(['bz', 'bnz'])} {r.choice(labels)}"]
+        if r.random() < 0.3: L += ["callsub sub"]
+        L += run() + [f"{lab}:"]
+    L += run() + ["int 1", "return", "sub:"] + run() + ["retsub"]
+    return "\n".join(L) + "\n"
